@@ -440,29 +440,27 @@ func (fc *fileController) rejuvenate(fileKey uint16) error {
 }
 
 func (fc *fileController) atDescriptorLimit() bool {
-	fc.writers.RLock()
+	// The reader and writer pools are counted one after the other instead of under
+	// both locks at once: garbageCollectFile acquires fc.writers while it holds
+	// fc.readers, so nesting the two in the opposite order here could deadlock.
 	fc.readers.RLock()
-	defer func() {
-		fc.readers.RUnlock()
-		fc.writers.RUnlock()
-	}()
 	readerCount := 0
 	for _, f := range fc.readers.files {
 		f.RLock()
 		readerCount += len(f.open)
 		f.RUnlock()
 	}
-	return readerCount+len(fc.writers.open) >= fc.MaxDescriptors
+	fc.readers.RUnlock()
+	fc.writers.RLock()
+	writerCount := len(fc.writers.open)
+	fc.writers.RUnlock()
+	return readerCount+writerCount >= fc.MaxDescriptors
 }
 
 func (fc *fileController) close() error {
-	fc.writers.RLock()
-	fc.readers.RLock()
-	defer func() {
-		fc.readers.RUnlock()
-		fc.writers.RUnlock()
-	}()
+	// See atDescriptorLimit: fc.writers is never held while acquiring fc.readers.
 	var err error
+	fc.writers.RLock()
 	for _, w := range fc.writers.open {
 		if !w.tryAcquire() {
 			err = errors.Join(err, newResourceInUseError("writer", w.fileKey))
@@ -470,6 +468,8 @@ func (fc *fileController) close() error {
 			err = errors.Join(err, w.HardClose())
 		}
 	}
+	fc.writers.RUnlock()
+	fc.readers.RLock()
 	for _, f := range fc.readers.files {
 		f.Lock()
 		for _, r := range f.open {
@@ -481,6 +481,7 @@ func (fc *fileController) close() error {
 		}
 		f.Unlock()
 	}
+	fc.readers.RUnlock()
 	return errors.Join(err, fc.counterFile.Close())
 }
 
